@@ -308,8 +308,14 @@ class HashSetMonitor:
 
     def __init__(self):
         self.bad = None
-        self.d = {}
+        self.ds = [{}, {}]     # two maps; `sel i` chooses the one the other lines act on
+        self.sel = 0
         self.seen = None
+        self.bound = None      # the map the stepwise enumerator is bound to (None: default-constructed)
+
+    @property
+    def d(self):
+        return self.ds[self.sel]
 
     def fail(self, i, kind, msg):
         if self.bad is None:
@@ -328,9 +334,15 @@ class HashSetMonitor:
         op = t[0]
         d = self.d
         want = None
+        if "!" in ret:
+            self.fail(i, "enumerator-api", "`%s` answered `%s`" % (line, ret))
+            return
         if op == "reset":
-            self.d = d = {}
+            self.ds = [{}, {}]; self.sel = 0
+            d = self.d
             self.seen = None
+        elif op == "sel":
+            self.sel = int(t[1]); d = self.d; want = "-"
         elif op == "put":
             d[int(t[1])] = int(t[2]); want = "-"; self.seen = None
         elif op == "touch":
@@ -356,12 +368,18 @@ class HashSetMonitor:
                 kind = "enum-twice" if len(set(got)) != len(got) else ("enum-missed" if len(got) < len(exp) else "enum-wrong")
                 self.fail(i, kind, "a full enumeration visited [%s], the map holds [%s]" % (" ".join(got), " ".join(exp)))
         elif op == "estart":
-            self.seen = []
+            self.seen = []; self.bound = self.sel
+        elif op == "enew":
+            self.seen = []; self.bound = None
+        elif op == "erebind" and self.seen is not None:
+            # `en = set`: whatever the enumerator was doing, a sweep now visits the NEW set's entries once each
+            self.seen = []; self.bound = int(t[1])
         elif op == "enext" and self.seen is not None:
+            bd = self.ds[self.bound] if self.bound is not None else {}
             if ret == "end" and self.seen == "done":
                 pass
             elif ret == "end":
-                exp = sorted("%d:%d" % kv for kv in d.items())
+                exp = sorted("%d:%d" % kv for kv in bd.items())
                 if sorted(self.seen) != exp:
                     self.fail(i, "enum-missed" if len(self.seen) < len(exp) else "enum-wrong",
                               "stepwise enumeration visited [%s], the set holds [%s]" % (" ".join(self.seen), " ".join(exp)))
@@ -371,6 +389,8 @@ class HashSetMonitor:
             else:
                 if ret in self.seen:
                     self.fail(i, "enum-twice", "stepwise enumeration visited %s twice" % ret)
+                elif ret not in ["%d:%d" % kv for kv in bd.items()]:
+                    self.fail(i, "enum-foreign", "stepwise enumeration returned %s, which the set it is bound to does not hold" % ret)
                 self.seen.append(ret)
         if want is not None and ret != want:
             self.fail(i, "return-value", "%s returned `%s`, an abstract map returns `%s`" % (op, ret, want))
@@ -443,14 +463,86 @@ def gen_hashset(rng, n):
             lines.append("clear"); en = False
         elif r < 0.92:
             lines.append("enum")
-        elif r < 0.94:
+        elif r < 0.935:
             lines.append("estart"); en = True
+        elif r < 0.945:
+            lines.append(rng.choice(["erebind 0", "erebind 1", "erebind 0", "enew", "sel 0", "sel 1"]))   # erebind: bad-op when no enumerator is live
         else:
             lines.append("enext")            # bad-op on both sides when no enumerator is live
     lines.append("enum")
     lines.append("estart")
     lines += ["enext"] * (nk + 2)
     return lines
+
+
+def gen_rebind(rng):
+    """directed family: an EXISTING enumerator object re-bound with `en = set` (set_enum::operator=(set&) and, in
+    lockstep, map_enum::operator=(map&)) — to the same set or to the other one; after 0, 1, .., all `NextElement`
+    calls (in the middle of a collision chain, at a chain end, at the end of the table), fresh, or default-
+    constructed; every sweep after a rebind is run to its end (+2 calls)"""
+    hs = hash_universe(rng) if rng.random() < 0.5 else [rng.choice([5, 1, 8, 120])] * rng.choice([3, 4, 6])
+    if rng.random() < 0.4:
+        hs = COLLIDE + [1 + 7 * 17 * k for k in range(1, rng.randint(2, 5))]       # one long chain at every table length
+    nk = len(hs)
+    lines = ["reset " + " ".join(str(h) for h in hs)]
+    size = [0, 0]
+    for which in (0, 1):
+        lines.append("sel %d" % which)
+        keys = rng.sample(range(nk), rng.randint(0 if which else 2, nk))
+        for k in keys:
+            lines.append("put %d %d" % (k, rng.randint(1, 9)))
+        size[which] = len(keys)
+        if rng.random() < 0.2:
+            lines.append(rng.choice(["shrink", "resize %d" % rng.choice([0, 2, 7, 17, 20])]))
+    selected = rng.randint(0, 1)
+    lines.append("sel %d" % selected)
+    cur = None          # the map the enumerator is bound to; -1: default-constructed; None: no enumerator yet
+    for _ in range(rng.randint(2, 6)):
+        if cur is None or rng.random() < 0.15:
+            if rng.random() < 0.25:
+                lines.append("enew"); cur = -1
+                if rng.random() < 0.5:
+                    lines.append("enext")
+            else:
+                if rng.random() < 0.5:
+                    selected = rng.randint(0, 1)
+                    lines.append("sel %d" % selected)
+                lines.append("estart"); cur = selected
+        else:
+            cur = rng.randint(0, 1)
+            lines.append("erebind %d" % cur)
+        n = size[cur] if cur >= 0 else 0
+        # abandon the sweep after 0 .. n calls (mid-chain when keys collide), or run it past the end
+        steps = rng.choice([0, 1, 1, 2, 2, 3, max(0, n - 1), n, n + 1, n + 2])
+        lines += ["enext"] * min(steps, n + 2)
+        if rng.random() < 0.15:
+            x = rng.choice(["get %d" % rng.randrange(nk), "size", "enum", "sel"])
+            if x == "sel":
+                selected = rng.randint(0, 1)
+                x = "sel %d" % selected
+            lines.append(x)
+    # the last binding is swept to its end
+    target = rng.randint(0, 1)
+    lines.append("erebind %d" % target)
+    lines += ["enext"] * (size[target] + 2)
+    if rng.random() < 0.05:
+        lines += ["put 0 1", "erebind 0", "erebind 2", "erebind", "sel 2", "enew 1"]      # no live enumerator / malformed: bad-op
+    return lines
+
+
+def exh_rebind():
+    """deterministic: 4 keys in one chain in map 0 (2 of them also in map 1): for every number of calls 0..5 before
+    the rebind, for both targets, started fresh / default-constructed"""
+    head = "reset " + " ".join(str(h) for h in COLLIDE)
+    fill = ["put 0 1", "put 1 2", "put 2 3", "put 3 4", "sel 1", "put 1 7", "put 3 8", "sel 0"]
+    out = []
+    for start in ("estart", "enew"):
+        for k in range(0, 6):
+            for target in (0, 1):
+                for k2 in (0, 1, 2):
+                    out.append([head] + fill + [start] + ["enext"] * k + ["erebind %d" % target] + ["enext"] * k2 +
+                               ["erebind %d" % (1 - target)] + ["enext"] * 6 + ["erebind %d" % target] + ["enext"] * 6)
+    return out
 
 
 def exh_hashset(maxlen, core=False):
@@ -512,6 +604,13 @@ def check_hashset(ctx, quick):
         for i in range(ncases):
             yield ("hashset:random:%d" % i, gen_hashset(rng, rng.choice([8, 30, length])))
     bad += run_area(ctx, d, "hashset", rnd(), 100)
+    # re-binding an existing enumerator (`en = set`): deterministic family + random
+    reb = exh_rebind()
+    nreb = 150 if quick else 3000
+    ctx.stats["hashset_rebind_cases"] = len(reb) + nreb
+    bad += run_area(ctx, d, "hashset", (("hashset:rebind:exh:%d" % i, c) for i, c in enumerate(reb)), 500)
+    rrng = ctx.rng("hashset-rebind")
+    bad += run_area(ctx, d, "hashset", (("hashset:rebind:%d" % i, gen_rebind(rrng)) for i in range(nreb)), 100)
     exh = exh_hashset(3 if quick else 5) + exh_hashset(4 if quick else 6, core=True)
     ctx.stats["hashset_exhaustive_histories"] = len(exh)
     bad += run_area(ctx, d, "hashset", (("hashset:exh:%d" % i, c) for i, c in enumerate(exh)), 5000)
